@@ -463,6 +463,53 @@ func cliFacts(dir string) (pipeline []string, guard []string) {
 	return
 }
 
+// uncheckedAsserts lists every single-value type assertion x.(T) (the form that panics when the
+// dynamic type differs) in the non-test files of a package, as "file:func:T", sorted.
+func uncheckedAsserts(dir string) []string {
+	fset := token.NewFileSet()
+	pkgs, err := parser.ParseDir(fset, dir, func(fi os.FileInfo) bool { return !strings.HasSuffix(fi.Name(), "_test.go") }, 0)
+	if err != nil {
+		return []string{"PARSE-ERROR"}
+	}
+	var out []string
+	for _, pkg := range pkgs {
+		for fname, f := range pkg.Files {
+			for _, d := range f.Decls {
+				fd, ok := d.(*ast.FuncDecl)
+				if !ok || fd.Body == nil {
+					continue
+				}
+				checked := map[*ast.TypeAssertExpr]bool{}
+				ast.Inspect(fd.Body, func(n ast.Node) bool {
+					switch v := n.(type) {
+					case *ast.AssignStmt:
+						if len(v.Lhs) == 2 && len(v.Rhs) == 1 {
+							if ta, ok := v.Rhs[0].(*ast.TypeAssertExpr); ok {
+								checked[ta] = true
+							}
+						}
+					case *ast.ValueSpec:
+						if len(v.Names) == 2 && len(v.Values) == 1 {
+							if ta, ok := v.Values[0].(*ast.TypeAssertExpr); ok {
+								checked[ta] = true
+							}
+						}
+					}
+					return true
+				})
+				ast.Inspect(fd.Body, func(n ast.Node) bool {
+					if ta, ok := n.(*ast.TypeAssertExpr); ok && ta.Type != nil && !checked[ta] {
+						out = append(out, filepath.Base(fname)+":"+fd.Name.Name+":"+nodeText(fset, ta.Type))
+					}
+					return true
+				})
+			}
+		}
+	}
+	sort.Strings(out)
+	return out
+}
+
 func main() {
 	if len(os.Args) != 3 {
 		fmt.Fprintln(os.Stderr, "usage: factgen <repo> <out.lean>")
@@ -537,6 +584,11 @@ func main() {
 	fmt.Fprintf(&sb, "def lockFacts_TransactionStore : List (String × String × Bool) := %s\n", lockFacts(filesTx, "TransactionStore"))
 	fmt.Fprintf(&sb, "def lockFacts_TransactionBase : List (String × String × Bool) := %s\n", lockFacts(filesTx, "TransactionBase"))
 	fmt.Fprintf(&sb, "def lockFacts_RetryTransaction : List (String × String × Bool) := %s\n", lockFacts(filesTx, "RetryTransaction"))
+
+	sb.WriteString("\n-- single-value type assertions (they panic on a mismatch) in the packages a peer can reach\n")
+	for _, pk := range []string{"gateway", "client", "transactions"} {
+		fmt.Fprintf(&sb, "def uncheckedAsserts_%s : List String := %s\n", pk, leanStrList(uncheckedAsserts(filepath.Join(repo, pk))))
+	}
 
 	sb.WriteString("\n-- cmd/: predefined-topics pipeline and plaintext-credentials guard of each tool\n")
 	for _, tool := range []string{"bisquitt", "bisquitt-pub", "bisquitt-sub"} {
